@@ -32,6 +32,11 @@ CHECKS["C11"] = ("exploration",
          "4.C11", "exhaustive enumeration of definition subsets/positions + seeded random grammars x oracle: rule-implementing reference semantics, script reader, metamorphic script equality, bash execution",
          "trusted: reference semantics (model.rs Resolver), command-function reader; fish/zsh/pwsh functions are read, not executed")
 
+CHECKS["C14"] = ("exploration",
+         "Metamorphic: two independent renderings of one generated grammar (layout, comments, form feeds, CRLF, '::=', final ';', redundant parentheses around space-separated items, statement order with call variants kept in order) must compile to byte-identical scripts for all four shells (library pipeline, 100k grammars in quick) and through the real binary (stdout + exit status, sampled).",
+         "4.C14", "generated grammars x two generated renderings (seeded proptest choice streams) x metamorphic oracle: byte-identical output",
+         "trusted: the printer (both renderings are parsed and compared as trees first; a mismatch is reported as exit 2, not as a violation)")
+
 NOT_YET = {
 }
 
